@@ -175,9 +175,14 @@ def strictly_valid(header):
         r = parse_member(m)
         if r is MALFORMED:
             return False
+        seen = set()
         for p in split_outside_quotes(m, ';')[1:]:
             name, _, val = p.partition('=')
-            if name.strip(' \t').lower() == 'q' and not _QSTRICT.match(val.strip(' \t')):
+            name = name.strip(' \t').lower()
+            if name in seen:
+                return False        # a repeated parameter name has no defined reading
+            seen.add(name)
+            if name == 'q' and not _QSTRICT.match(val.strip(' \t')):
                 return False
     return True
 
